@@ -56,3 +56,31 @@ Theorem C09_probe_decides_grant_in_every_factory :
     (World.e_can_put w e = false -> snd (StoreB.step (FactoryProbe.synced w e ev) (StoreB.RPut p 0)) = []).
 Proof. exact FactoryProbe.probe_decides_grant_everywhere. Qed.
 Print Assumptions C09_probe_decides_grant_in_every_factory.
+
+(* ... and the kernel event the node then waits on is already triggered: the wait is over within the
+   same instant.  Uses the token-alignment invariant (theories/Factory/FactoryTok.v: on every edge of every
+   reachable world the store's token counter is at most the kernel's event count, so the Sync step of
+   e_reserve_put makes the granted token and the returned event coincide). *)
+From FV Require FactoryTok.
+Theorem C09_probe_yes_then_no_wait_in_every_factory :
+  forall nodes edges order n,
+    Forall (fun ed => StoreBWeak.WN (World.est ed)) edges ->
+    Forall (fun ed => StoreB.next (World.est ed) = 0%nat) edges ->
+    let w := FactoryInv.iter_fstep n (Factory.mk_world nodes edges order) in
+    forall e p, (e < length (World.wedges w))%nat -> World.e_can_put w e = true ->
+      e_trig (get_ev (World.wk (fst (World.e_reserve_put w e p))) (snd (World.e_reserve_put w e p))) = true.
+Proof. exact FactoryProbe.probe_yes_reservation_triggered. Qed.
+Print Assumptions C09_probe_yes_then_no_wait_in_every_factory.
+
+Theorem C09_tokens_aligned_in_every_factory :
+  forall nodes edges order n,
+    Forall (fun ed => StoreB.next (World.est ed) = 0%nat) edges ->
+    let w := FactoryInv.iter_fstep n (Factory.mk_world nodes edges order) in
+    forall i ed, nth_error (World.wedges w) i = Some ed -> (StoreB.next (World.est ed) <= length (evs (World.wk w)))%nat.
+Proof. exact FactoryTok.tokens_aligned_everywhere. Qed.
+Print Assumptions C09_tokens_aligned_in_every_factory.
+
+(* the premises are those of a freshly built edge: StoreB.init satisfies both *)
+Example C09_fresh_edge_ok : forall k m c, StoreB.is_belt k = false ->
+  StoreBWeak.WN (StoreB.init k m c) /\ StoreB.next (StoreB.init k m c) = 0%nat.
+Proof. intros k m c NB. split; [apply StoreBWeak.init_wn; exact NB|reflexivity]. Qed.
